@@ -157,3 +157,97 @@ package cbreaker
 //@   modifies everything
 //@   ensures one_outcome: calls(c.fallback.ServeHTTP) + calls(serve) == 1
 //@   ensures fallback_iff_activated: (calls(c.fallback.ServeHTTP) == 1) <==> callres(activateFallback, 0, 0)
+
+// ---- C18: the condition expression -------------------------------------------------------------------
+// hpval / ival / fval name the value a predicate / mapper closure yields for a breaker (functional determinism).
+// Every operator closure is proved to compute the standard operator over the values of its arguments.
+
+//@ stablekeys elems(hpredicate)
+
+//@ func parseExpression
+//@   props C18
+//@   modifies everything
+//@   wiring Operators.AND=and Operators.OR=or Operators.EQ=eq Operators.NEQ=neq Operators.LT=lt Operators.LE=le Operators.GT=gt Operators.GE=ge
+//@   wiring ["LatencyAtQuantileMS"]=latencyAtQuantile ["NetworkErrorRatio"]=networkErrorRatio ["ResponseCodeRatio"]=responseCodeRatio
+
+//@ func and$1
+//@   props C18
+//@   holds CircuitBreaker.m
+//@   modifies everything
+//@   ensures conjunction: result <==> (forall j int :: 0 <= j && j < len(fns) ==> hpval(fns[j], c))
+//@   loop 1 invariant -1 <= rangeindex && rangeindex < len(fns) && (forall j int :: 0 <= j && j <= rangeindex ==> hpval(fns[j], c))
+
+//@ func or$1
+//@   props C18
+//@   holds CircuitBreaker.m
+//@   modifies everything
+//@   ensures disjunction: result <==> (exists j int :: 0 <= j && j < len(fns) && hpval(fns[j], c))
+//@   loop 1 invariant -1 <= rangeindex && rangeindex < len(fns) && (forall j int :: 0 <= j && j <= rangeindex ==> !hpval(fns[j], c))
+
+//@ func not$1
+//@   props C18
+//@   holds CircuitBreaker.m
+//@   modifies everything
+//@   ensures negation: result <==> !hpval(p, c)
+
+//@ func le$1
+//@   props C18
+//@   holds CircuitBreaker.m
+//@   modifies everything
+//@   ensures less_or_equal: result <==> (hpval(l, c) || hpval(e, c))
+
+//@ func ge$1
+//@   props C18
+//@   holds CircuitBreaker.m
+//@   modifies everything
+//@   ensures greater_or_equal: result <==> (hpval(g, c) || hpval(e, c))
+
+//@ func intEQ$1
+//@   props C18
+//@   modifies everything
+//@   ensures compares: result <==> ival(m, c) == value
+//@ func intLT$1
+//@   props C18
+//@   modifies everything
+//@   ensures compares: result <==> ival(m, c) < value
+//@ func intGT$1
+//@   props C18
+//@   modifies everything
+//@   ensures compares: result <==> ival(m, c) > value
+//@ func float64EQ$1
+//@   props C18
+//@   modifies everything
+//@   ensures compares: result <==> fval(m, c) == value
+//@ func float64LT$1
+//@   props C18
+//@   modifies everything
+//@   ensures compares: result <==> fval(m, c) < value
+//@ func float64GT$1
+//@   props C18
+//@   modifies everything
+//@   ensures compares: result <==> fval(m, c) > value
+
+//@ func eq
+//@   props C18
+//@   modifies everything
+//@   ensures dispatch: (istype(m, "toInt") ==> calls(intEQ) == 1) && (istype(m, "toFloat64") ==> calls(float64EQ) == 1) && (!istype(m, "toInt") && !istype(m, "toFloat64") ==> result1 != nil)
+//@ func lt
+//@   props C18
+//@   modifies everything
+//@   ensures dispatch: (istype(m, "toInt") ==> calls(intLT) == 1) && (istype(m, "toFloat64") ==> calls(float64LT) == 1) && (!istype(m, "toInt") && !istype(m, "toFloat64") ==> result1 != nil)
+//@ func gt
+//@   props C18
+//@   modifies everything
+//@   ensures dispatch: (istype(m, "toInt") ==> calls(intGT) == 1) && (istype(m, "toFloat64") ==> calls(float64GT) == 1) && (!istype(m, "toInt") && !istype(m, "toFloat64") ==> result1 != nil)
+//@ func neq
+//@   props C18
+//@   modifies everything
+//@   ensures negated_equality: result1 == nil ==> calls(eq) == 1 && calls(not) == 1 && callarg(not, 0, 0) == callres(eq, 0, 0)
+//@ func le
+//@   props C18
+//@   modifies everything
+//@   ensures built_from_lt_and_eq: result1 == nil ==> calls(lt) == 1 && calls(eq) == 1 && callarg(lt, 0, 0) == m && callarg(eq, 0, 0) == m && callarg(lt, 0, 1) == value && callarg(eq, 0, 1) == value
+//@ func ge
+//@   props C18
+//@   modifies everything
+//@   ensures built_from_gt_and_eq: result1 == nil ==> calls(gt) == 1 && calls(eq) == 1 && callarg(gt, 0, 0) == m && callarg(eq, 0, 0) == m && callarg(gt, 0, 1) == value && callarg(eq, 0, 1) == value
